@@ -85,6 +85,17 @@ fn changed(rt: &Rt, addr: usize, old: u64, new: u64) {
     }
 }
 
+/// Optional scheduling point after a load (or a failed CAS, which is a load): the window
+/// between reading a pointer / position / tag and the non-atomic code that uses it (a
+/// dereference, a copy-out) becomes preemptible.
+#[inline]
+fn post_read(rt: &Rt) {
+    if rt.post_load.get() && rt.active.get() && !std::thread::panicking() {
+        raw_switch(rt);
+        account(rt, K_POST);
+    }
+}
+
 #[inline]
 fn pre(addr: usize, kind: u8, what: &'static str) -> bool {
     with(|rt| {
@@ -124,6 +135,7 @@ impl AtomicUsize {
                 if rt.trace.get() {
                     trace_op(rt, "load", self.addr(), v as u64, v as u64)
                 }
+                post_read(rt);
             });
         }
         v
@@ -201,7 +213,10 @@ impl AtomicUsize {
         if a {
             with(|rt| match r {
                 Ok(old) => changed(rt, self.addr(), old as u64, new as u64),
-                Err(_) => rt.contention.set(rt.contention.get() + 1),
+                Err(_) => {
+                    rt.contention.set(rt.contention.get() + 1);
+                    post_read(rt);
+                }
             });
         }
         r
@@ -249,6 +264,7 @@ impl AtomicUsize {
                     // head (multi-producer claim) or on a shared reader position
                     let p = &rt.probes[Probe::MultiCasRetry as usize];
                     p.set(p.get() + 1);
+                    post_read(rt);
                 }
             });
         }
@@ -285,8 +301,12 @@ impl<T> AtomicPtr<T> {
     }
     #[inline]
     pub fn load(&self, _o: Ordering) -> *mut T {
-        pre(self.addr(), K_LOAD, "atomic pointer load");
-        self.0.load(Ordering::SeqCst)
+        let a = pre(self.addr(), K_LOAD, "atomic pointer load");
+        let v = self.0.load(Ordering::SeqCst);
+        if a {
+            with(|rt| post_read(rt));
+        }
+        v
     }
     #[inline]
     pub fn peek(&self) -> *mut T {
@@ -315,7 +335,10 @@ impl<T> AtomicPtr<T> {
         if a {
             with(|rt| match r {
                 Ok(old) => changed(rt, self.addr(), old as usize as u64, new as usize as u64),
-                Err(_) => rt.contention.set(rt.contention.get() + 1),
+                Err(_) => {
+                    rt.contention.set(rt.contention.get() + 1);
+                    post_read(rt);
+                }
             });
         }
         r
